@@ -46,27 +46,39 @@ def _rect_cov(m, K, slack_kind, tier="quick"):
         W = S.rows_of(O)
         lo1, up1 = R1.lower.snapshot.flat(), R1.upper.snapshot.flat()
         lo2, up2 = R2.lower.snapshot.flat(), R2.upper.snapshot.flat()
-        if not t.ctx.cvx:
-            t.prove("a_problem_is_solved", False)
-        # (1) the constructed constraint set is pointwise the specification's set
+        # Semantic statement (robust against shortcuts that decide without the LP): COVERED is the specification's verdict
+        #     exists z in R1, z' in R2 :  W (z' - z - slack) >= 0.
+        # (1) a program whose constraint set is proved pointwise equal to the specification's returns COVERED (A-SOLVE);
+        # (2) witnesses: a pair of box vertices / centres satisfying the specification makes it COVERED;
+        # (3) certificates: a facet functional that is negative on every vertex pair is negative on the boxes (box-extreme lemma of
+        #     C09), so the specification is not satisfiable;  the result must be COVERED.
+        COVERED = z3.Bool("covered_spec")
+        spec_of = lambda z, zp: z3.And(S.in_box(z, lo1, up1), S.in_box(zp, lo2, up2), *[S.dot(w, S.vsub(S.vsub(zp, z), svec)) >= 0 for w in W])
+        mid = lambda lo, up: [(V.R(a) + V.R(b)) / 2 for a, b in zip(lo, up)]
+        pts1 = [list(v) for v in S.verts(lo1, up1)] + [mid(lo1, up1)]
+        pts2 = [list(v) for v in S.verts(lo2, up2)] + [mid(lo2, up2)]
+        links = [z3.Implies(spec_of(a_, b_), COVERED) for a_ in pts1 for b_ in pts2]
+        for w in W:
+            links.append(z3.Implies(z3.And(*[S.dot(w, S.vsub(S.vsub(list(v2), list(v1)), svec)) < 0 for v1 in S.verts(lo1, up1) for v2 in S.verts(lo2, up2)]), z3.Not(COVERED)))
         for i, rec in enumerate(t.ctx.cvx):
             vs = rec["vars"]
+            if len(vs) != 2 * m:
+                t.prove("two_variables_only#%d" % i, False)
+                continue
             z, zp = vs[:m], vs[m:2 * m]
-            spec = z3.And(S.in_box(z, lo1, up1), S.in_box(zp, lo2, up2),
-                          *[S.dot(w, S.vsub(S.vsub(zp, z), svec)) >= 0 for w in W])
-            t.prove("constraints_are_spec#%d" % i, rec["constraints"] == spec, assumptions=rec["pc"][len(t.pre):])
+            spec = spec_of(z, zp)
+            r = t.prove("constraints_are_spec#%d" % i, rec["constraints"] == spec, assumptions=rec["pc"][len(t.pre):], needed=True)
             # directions (C01 / C05 consume only "a covering pair of points makes the program feasible")
             t.prove("complete/every_covering_pair_is_feasible_for_the_program#%d" % i, z3.Implies(spec, rec["constraints"]), assumptions=rec["pc"][len(t.pre):])
             t.prove("sound/every_feasible_point_is_a_covering_pair#%d" % i, z3.Implies(rec["constraints"], spec), assumptions=rec["pc"][len(t.pre):])
-            t.prove("two_variables_only#%d" % i, z3.BoolVal(len(vs) == 2 * m))
-        # (2) the returned boolean is the solver's feasibility verdict for that program
+            if r is not None and r["status"] == "proved":
+                own = rec["pc"][len(t.pre):]
+                links.append(z3.Implies(z3.And(*own) if own else z3.BoolVal(True), rec["feas"] == COVERED))
+
         def goal(p):
             if p.kind != "return":
                 return False
-            recs = cvx_for_path(t, p)
-            if len(recs) != 1:
-                return False
-            return V.Bz(p.value) == recs[0]["feas"]
+            return z3.Implies(z3.And(R1.valid(), R2.valid(), *links), V.Bz(p.value) == COVERED)
         t.prove_paths("result_is_feasibility", paths, goal)
         t.implicit()
     return _t
@@ -118,26 +130,32 @@ def _ell_cov(m, K, slack_kind, tier="quick"):
         t.must_fail()
         t.no_raise(paths)
         W = S.rows_of(O)
-        if not t.ctx.cvx:
-            t.prove("a_problem_is_solved", False)
+        # Semantic statement (as for rectangles): COVERED = exists z in Ell1, z' in Ell2 with W_k (z' - z) >= s_k for every facet;
+        # a program with the specification's constraint set returns COVERED; the centres are a witness when they satisfy it.
+        COVERED = z3.Bool("covered_spec")
+        spec_of = lambda z, zp: z3.And(ell_member(E1, z, m), ell_member(E2, zp, m), *[S.dot(W[k], S.vsub(zp, z)) >= V.R(sK[k]) for k in range(K)])
+        c1 = [V.R(x) for x in E1.center.snapshot.flat()]
+        c2 = [V.R(x) for x in E2.center.snapshot.flat()]
+        links = [z3.Implies(z3.And(*[S.dot(W[k], S.vsub(c2, c1)) >= V.R(sK[k]) for k in range(K)]), COVERED)]   # (centres are members of their ellipsoids)
         for i, rec in enumerate(t.ctx.cvx):
             vs = rec["vars"]
+            if len(vs) != 2 * m:
+                t.prove("two_variables_only#%d" % i, False)
+                continue
             z, zp = vs[:m], vs[m:2 * m]
-            spec = z3.And(ell_member(E1, z, m), ell_member(E2, zp, m),
-                          *[S.dot(W[k], S.vsub(zp, z)) >= V.R(sK[k]) for k in range(K)])
-            t.prove("constraints_are_spec#%d" % i, rec["constraints"] == spec, assumptions=rec["pc"][len(t.pre):])
+            spec = spec_of(z, zp)
+            r = t.prove("constraints_are_spec#%d" % i, rec["constraints"] == spec, assumptions=rec["pc"][len(t.pre):], needed=True)
             # directions (C01 / C05 consume only "a covering pair of points makes the program feasible")
             t.prove("complete/every_covering_pair_is_feasible_for_the_program#%d" % i, z3.Implies(spec, rec["constraints"]), assumptions=rec["pc"][len(t.pre):])
             t.prove("sound/every_feasible_point_is_a_covering_pair#%d" % i, z3.Implies(rec["constraints"], spec), assumptions=rec["pc"][len(t.pre):])
-            t.prove("two_variables_only#%d" % i, z3.BoolVal(len(vs) == 2 * m))
+            if r is not None and r["status"] == "proved":
+                own = rec["pc"][len(t.pre):]
+                links.append(z3.Implies(z3.And(*own) if own else z3.BoolVal(True), rec["feas"] == COVERED))
 
         def goal(p):
             if p.kind != "return":
                 return False
-            recs = cvx_for_path(t, p)
-            if len(recs) != 1:
-                return False
-            return V.Bz(p.value) == recs[0]["feas"]
+            return z3.Implies(z3.And(*links), V.Bz(p.value) == COVERED)
         t.prove_paths("result_is_feasibility", paths, goal)
         t.implicit()
     return _t
@@ -164,6 +182,16 @@ def _ell_cov_badslack(t):
 # ---------------------------------------------------------------------------------------------
 
 
+def _same_linear(e1, e2, vars_):
+    """e1 and e2 are the same affine function of vars_ (coefficients and constant agree): quantifier-free."""
+    zero = [(v, z3.RealVal(0)) for v in vars_]
+    cs = [z3.substitute(e1, *zero) == z3.substitute(e2, *zero)]
+    for i, v in enumerate(vars_):
+        unit = [(u, z3.RealVal(1 if j == i else 0)) for j, u in enumerate(vars_)]
+        cs.append(z3.substitute(e1, *unit) == z3.substitute(e2, *unit))
+    return z3.And(*cs)
+
+
 def _ell_dom(m, K, slack_kind, tier="quick"):
     @task("C09", "Ell.is_dominated[m=%d,K=%d,slack=%s]" % (m, K, slack_kind), tier=tier)
     def _t(t):
@@ -188,27 +216,28 @@ def _ell_dom(m, K, slack_kind, tier="quick"):
             t.prove("feasible_set_is_Ell1xEll2#%d" % i, rec["constraints"] == spec, assumptions=rec["pc"][len(t.pre):])
             # direction consumed by C01 / C05: the minimum is taken over (at least) every pair of points of the two regions
             t.prove("sound/every_pair_of_region_points_is_feasible#%d" % i, z3.Implies(spec, rec["constraints"]), assumptions=rec["pc"][len(t.pre):])
-        # along every path the programs are solved for facets 0,1,2,... in order, and the result is
-        # False exactly at the first facet whose optimum is below -s_k, True if none is
+        # Semantic statement (robust against shortcuts that skip a solve): OPT_k is the specification's optimum of facet k,
+        #     OPT_k = min { W_k . (z' - z) : z in Ell1, z' in Ell2 };
+        # every program the code solves whose objective is facet k's and whose feasible set is Ell1 x Ell2 (clause above) returns
+        # OPT_k (A-SOLVE); the ellipsoids' centres are members, so OPT_k <= W_k . (c2 - c1); the result must be "OPT_k >= -s_k
+        # for every facet k".
+        OPT = [z3.Real("OPT_facet_%d" % k) for k in range(K)]
+        c1 = E1.center.snapshot.flat()
+        c2 = E2.center.snapshot.flat()
+        centre_bound = z3.And(*[OPT[k] <= S.dot(W[k], S.vsub([V.R(x) for x in c2], [V.R(x) for x in c1])) for k in range(K)])
+        spec_result = z3.And(*[OPT[k] >= -V.R(sK[k]) for k in range(K)])
+
         def goal(p):
             if p.kind != "return":
                 return False
             recs = cvx_for_path(t, p)
-            recs.sort(key=lambda r: len(r["pc"]))
-            # with the SolverError fallback each facet has exactly one solved program on a path
-            if len(recs) == 0 or len(recs) > K:
-                return False
-            cs = []
-            for k, rec in enumerate(recs):
-                cs.append(rec["objective"] == S.dot(W[k], S.vsub(rec["vars"][m:2 * m], rec["vars"][:m])))
-            ok_all = z3.And(*[recs[k]["optval"] >= -V.R(sK[k]) for k in range(len(recs))])
-            if len(recs) < K:
-                # returned early: must be False because facet len(recs)-1 failed
-                cs.append(V.Bz(p.value) == z3.BoolVal(False))
-                cs.append(z3.Not(recs[-1]["optval"] >= -V.R(sK[len(recs) - 1])))
-            else:
-                cs.append(V.Bz(p.value) == ok_all)
-            return z3.And(*cs)
+            link = []
+            for rec in recs:
+                zv, zpv = rec["vars"][:m], rec["vars"][m:2 * m]
+                for k in range(K):
+                    link.append(z3.Implies(_same_linear(rec["objective"], S.dot(W[k], S.vsub(zpv, zv)), list(zv) + list(zpv)), rec["optval"] == OPT[k]))
+                # a solved program that is none of the facets' programs says nothing about the specification
+            return z3.Implies(z3.And(centre_bound, *link), V.Bz(p.value) == spec_result)
         t.prove_paths("result_is_forall_facets_min_ge_minus_slack", paths, goal)
         t.implicit()
     return _t
